@@ -76,24 +76,12 @@ theorem sge_accounts_with_permissions :
     (maccPerms.filter (fun m => (sgeModules ++ custodyAccounts).contains m.name && m.perms != [])).map
       (fun m => (m.name, m.perms)) = [("mint", ["minter"])] := by decide
 
-/-! ### blocked recipients (`app/keepers: BlockedAddresses`) -/
+/-! ### blocked recipients
 
-/-- The bank keeper is built with `BlockedAddresses(maccPerms)`, `maccPerms` is the app's `mAccPerms`, the
-    function inserts the address of every key and removes only `gov`. -/
-theorem blocked_construction :
-    blockedAllModuleAccounts = true ∧ unblocked.map (·.1) = ["gov"] ∧
-      bankBlockedArg.map (·.1) = ["BlockedAddresses(maccPerms)"] ∧
-      appKeepersPermsArg.map (·.1) = ["mAccPerms"] := by decide
-
-/-- the blocked-recipient set that this construction yields -/
-def blocked : List String :=
-  (maccPerms.map (·.name)).filter (fun n => !(unblocked.map (·.1)).contains n)
-
-#eval report "custody account that is NOT a blocked recipient" (custodyAccounts.filter (fun a => !blocked.contains a))
-
-/-- All four custody accounts (and `mint`) are blocked recipients: a plain `MsgSend` cannot pay into them. -/
-theorem custody_accounts_blocked :
-    (custodyAccounts ++ ["mint"]).all (fun a => blocked.contains a) = true := by decide
+  That the custody accounts (and `mint`) are blocked recipients of the bank module is asked of the RUNNING app by the
+  harness (`custodyBlockedProbe` of the core suite: `BankKeeper.BlockedAddr` and a real `MsgSend` into each of them,
+  monitor `custody_accounts_blocked` of C13/C01) - how app wiring builds the blocked set is free. The tables
+  `blockedAllModuleAccounts`, `unblocked`, `bankBlockedArg` of `Sge.Gen.Bank` are kept as information only. -/
 
 /-! ### bank-keeper calls of the custom modules -/
 
